@@ -134,6 +134,34 @@ theorem C01_hex_token_eof_partial (body : Bytes) (n : Nat)
   rw [C01_hex_then _ rfl 10 _ (by decide)]
   simp [stepByte, stepN, searchClass, hsp]
 
+/-- What the code reads for EVERY hexadecimal string, with no restriction on the digit count: the digit
+    pairs, a final odd digit as the LOW nibble (`codePairUp`).  Together with `C01_hex_code_even` this says
+    exactly where the code leaves ISO 32000-1 7.3.4.3 (`pairUp`): only in the last byte of an odd-length
+    string — the open finding, nothing else. -/
+theorem C01_hex_token_code (body : Bytes) (hb : ∀ c ∈ body, isHEX c = true ∨ isSPC c = true) :
+    specLex (60 :: body ++ [62]) = [(0, Token.str (codePairUp (hexDigits body)))] := by
+  have hsp : isNONSPC 10 = false := by decide +kernel
+  unfold specLex
+  rw [foldBytes_append, hex_spelling_code St.init rfl body 0 hb]
+  simp only [foldBytes]
+  rw [C01_hex_then _ rfl 10 _ (by decide)]
+  simp [stepByte, stepN, searchClass, hsp, hexDigits]
+
+/-- … at every buffer size. -/
+theorem C01_hex_token_code_buffered (b : Nat) (hb1 : 1 ≤ b) (body : Bytes)
+    (hb : ∀ c ∈ body, isHEX c = true ∨ isSPC c = true) :
+    run b (60 :: body ++ [62]) = some [(0, Token.str (codePairUp (hexDigits body)))] := by
+  rw [C14.C14_run_eq_spec b hb1, C01_hex_token_code body hb]
+
+/-- the code's reading is ISO's whenever the digit count is even -/
+theorem C01_hex_code_even (ds : Bytes) (n : Nat) (h : ds.length = 2 * n) : codePairUp ds = pairUp ds :=
+  codePairUp_even n ds h
+
+/-- Non-vacuity: `<4 1<NUL>4a7>` (odd): code 41 4A 07, ISO 41 4A 70. -/
+example : (∀ c ∈ ([52, 32, 49, 0, 52, 97, 55] : Bytes), isHEX c = true ∨ isSPC c = true) ∧
+    codePairUp (hexDigits [52, 32, 49, 0, 52, 97, 55]) = [65, 74, 7] ∧
+    pairUp (hexDigits [52, 32, 49, 0, 52, 97, 55]) = [65, 74, 112] := by decide +kernel
+
 /-- The pinned code breaks the full statement on an odd digit count: `<2>` reads as 0x02, ISO says 0x20
     (open finding `odd-hex-digit`; the unit tests pin this behaviour). -/
 theorem C01_odd_hex_cex : specLex [60, 50, 62] = [(0, Token.str [2])] ∧ pairUp (hexDigits [50]) = [32] := by
@@ -499,5 +527,99 @@ example : wf (.arr [] [.int [45] [48, 55] [], .name [.raw 65, .esc 50 48] [], .s
   refine ⟨hnil, ⟨h1, ⟨h2, ⟨h3, ⟨h4, ⟨h5, ⟨h6, trivial, ?_⟩, ?_⟩, ?_⟩, ?_⟩, ?_⟩, ?_⟩, hc⟩
   all_goals intro _ _ rest
   all_goals simp [bytesList, bytesOf, isDW, isGapByte, endsReg] at *
+
+/-! ### the second sentence of the property, for EVERY byte string (no `_partial`)
+
+"The result does not depend on where the reader's buffer boundaries fall or on the object's absolute
+offset in the file."  These statements do not say WHICH value is read, so they hold for every input —
+conformant or damaged, odd hexadecimal strings included. -/
+
+theorem tokVals_shift (k : Nat) (ts : List PTok) : tokVals (shiftToks k ts) = tokVals ts := by
+  simp [tokVals, shiftToks]
+
+theorem objects_tokVals (ts ts' : List PTok) (h : tokVals ts = tokVals ts') : objects ts = objects ts' := by
+  unfold objects; simp only [tokVals] at h; rw [h]
+
+/-- Buffer boundaries: the objects read do not depend on the read-buffer size, on any input. -/
+theorem C01_bufsize_indep (b₁ b₂ : Nat) (h₁ : 1 ≤ b₁) (h₂ : 1 ≤ b₂) (data : Bytes) :
+    (run b₁ data).map objects = (run b₂ data).map objects := by
+  rw [C14.C14_bufsize_indep b₁ b₂ h₁ h₂ data]
+
+/-- Offset: a prefix that holds no token and leaves the lexer in its main scanner (white space, complete
+    comments) changes nothing but the token positions, which the stack parser does not look at: the
+    objects read from `pre ++ data` are those read from `data`, for EVERY `data` and buffer size. -/
+theorem C01_offset_indep (b : Nat) (hb : 1 ≤ b) (pre data : Bytes) (hm : modeAfter pre = .main)
+    (hno : specLex pre = []) : (run b (pre ++ data)).map objects = (run b data).map objects := by
+  rw [C14.C14_run_eq_spec b hb, C14.C14_run_eq_spec b hb, Option.map_some, Option.map_some,
+    C14.C14_compositional_main pre data hm, hno, List.nil_append]
+  exact congrArg some (objects_tokVals _ _ (tokVals_shift _ _))
+
+/-- … in particular behind any run of white-space bytes (every byte of the regenerated SPC table). -/
+theorem C01_offset_indep_ws (b : Nat) (hb : 1 ≤ b) (pad data : Bytes) (hws : ∀ c ∈ pad, isSPC c = true) :
+    (run b (pad ++ data)).map objects = (run b data).map objects := by
+  have h := main_skip_all pad St.init 0 rfl hws
+  refine C01_offset_indep b hb pad data h.2 ?_
+  unfold specLex
+  rw [foldBytes_append, h.1]
+  have := fun p => main_nl (foldBytes St.init pad 0).1 p h.2
+  simp [foldBytes, this]
+
+/-- Splitting (content streams, C05): when `a` ends in a complete token, the stack parser fed with the
+    tokens of `a ++ ws ++ b` is in the state reached by feeding the tokens of `a` and then those of `b` —
+    operands left on the stack by `a` are seen by `b`. -/
+theorem C01_concat_feed (a ws b : Bytes) (hc : Complete (modeAfter a) = true) (hne : ws ≠ [])
+    (hws : ∀ c ∈ ws, isSPC c = true) :
+    feedAll {} (tokVals (specLex (a ++ ws ++ b))) = feedAll (feedAll {} (tokVals (specLex a))) (tokVals (specLex b)) := by
+  rw [C14.C14_compositional a ws b hc hne hws]
+  have h : tokVals (concatLex a ws b) = tokVals (specLex a) ++ tokVals (specLex b) := by
+    unfold concatLex
+    rw [show ∀ x y : List PTok, tokVals (x ++ y) = tokVals x ++ tokVals y from fun x y => List.map_append,
+      tokVals_shift]
+  rw [h]
+  simp [feedAll, feedAllWith, List.foldl_append]
+
+/-- from a hand-over state the rest of the input is read as from a fresh lexer (token values) -/
+theorem ho_fresh (st : St) (h : HO st) (d : UInt8) (tl : Bytes) (p : Nat) (hd : d ≠ 62) :
+    tokVals (foldBytes st (d :: tl) p).2 = tokVals (foldBytes St.init (d :: tl) 0).2 := by
+  have key : ∀ s : St, s.mode = .main → tokVals (foldBytes s (d :: tl) p).2 = tokVals (foldBytes St.init (d :: tl) 0).2 := by
+    intro s hs
+    have := (foldBytes_rel p (d :: tl) s St.init 0 (rel_main p s St.init hs rfl)).1
+    rw [Nat.zero_add] at this
+    rw [this, tokVals_shift]
+  rcases h with hm | hw
+  · exact key st hm
+  · rw [fold_from_wclose st d tl p hw hd]
+    exact key _ rfl
+
+/-- Context independence: what follows a spelled value — after ANY white-space or delimiter byte `d` but
+    `>` — never changes the tokens of the value, and is itself tokenised as if it stood alone:
+    `rest` is an arbitrary byte string (the next object, `endobj`, binary data, damaged input).  Full
+    statement for the tokens: no restriction on the hex digit count, no size bound. -/
+theorem C01_context_indep (pad : List SepItem) (hpad : sepOK pad) (t : STree) (hwf : wf t)
+    (d : UInt8) (rest : Bytes) (hd : isDW d = true) (hd62 : d ≠ 62) :
+    tokVals (specLex (renderSep pad ++ bytesOf t ++ d :: rest)) = ser (valueOf t) ++ tokVals (specLex (d :: rest)) := by
+  have hu := LexUnit.append_free (LexUnit.sep pad hpad) (lex_tree t hwf)
+  obtain ⟨st', hHO, h⟩ := hu St.init d (rest ++ [10]) 0 (Or.inl rfl) (fun _ => hd)
+  unfold specLex
+  have e : (renderSep pad ++ bytesOf t ++ d :: rest) ++ [10] = (renderSep pad ++ bytesOf t) ++ d :: (rest ++ [10]) := by
+    simp
+  rw [e, h, ho_fresh st' hHO d (rest ++ [10]) _ hd62]
+  simp
+
+/-- Non-vacuity: `[1/A]` followed by NUL and an unbalanced, damaged tail. -/
+example : tokVals (specLex ([91, 49, 47, 65, 93] ++ 0 :: [60, 50, 62, 41, 40, 97]))
+    = [.kwd [91], .int 1, .lit [65], .kwd [93]] ++ tokVals (specLex (0 :: [60, 50, 62, 41, 40, 97])) := by
+  decide +kernel
+
+/-- Non-vacuity: a damaged input (odd hex string, unbalanced bracket) behind NUL / CR / a comment. -/
+example : modeAfter [0, 13, 37, 99, 10, 32] = .main ∧ specLex [0, 13, 37, 99, 10, 32] = [] ∧
+    showState (objects (specLex ([0, 13, 37, 99, 10, 32] ++ [60, 50, 62, 93, 49])))
+      = showState (objects (specLex [60, 50, 62, 93, 49])) ∧
+    showState (objects (specLex [60, 50, 62, 93, 49])) ≠ showState {} := by decide +kernel
+example : Complete (modeAfter [49, 32, 50]) = true ∧
+    showState (feedAll {} (tokVals (specLex ([49, 32, 50] ++ [10] ++ [82]))))
+      = showState (feedAll (feedAll {} (tokVals (specLex [49, 32, 50]))) (tokVals (specLex [82]))) ∧
+    showState (feedAll {} (tokVals (specLex ([49, 32, 50] ++ [10] ++ [82])))) ≠
+      showState (feedAll {} (tokVals (specLex [49, 32, 50]))) := by decide +kernel
 
 end PdfVerif.Props.C01
